@@ -71,6 +71,11 @@ pub struct Rc {
     pub kv: Vec<(String, KvVal)>,
     /// messages logged from inside the Display implementation of the record's argument
     pub inner: Vec<String>,
+    /// the Display implementation of the record's argument panics after it has written a part
+    /// of its text (the harness catches the panic): the record is not written, and the records
+    /// that follow are not affected
+    #[serde(default)]
+    pub panics: bool,
 }
 
 #[derive(Clone, Debug, Serialize, Deserialize)]
@@ -143,6 +148,7 @@ fn expected_segs(case: &Case, base: i64, thread: &str, needs_ts: bool) -> Vec<Se
                     line: Some(line),
                     kv: vec![],
                     inner: vec![],
+                    panics: false,
                 };
                 segs.push(seg_of(&ir, &text, if needs_ts { t + off * step } else { t }));
             }
@@ -432,7 +438,7 @@ fn rc_strat(allow_inner: bool) -> BoxedStrategy<Rc> {
             // keys unique (a map in JSON)
             let mut seen = std::collections::BTreeSet::new();
             let kv = kv.into_iter().filter(|(k, _)| seen.insert(k.clone())).collect();
-            Rc { msg, level, module, file, line, kv, inner }
+            Rc { msg, level, module, file, line, kv, inner, panics: false }
         })
         .boxed()
 }
@@ -453,6 +459,32 @@ fn log_rec(log: &dyn log::Log, r: &Rc, target: &str) {
         })
         .collect();
     let kvs_ref: &[(&str, log::kv::Value)] = &kvs;
+    if r.panics {
+        struct Panicker;
+        impl std::fmt::Display for Panicker {
+            fn fmt(&self, f: &mut std::fmt::Formatter) -> std::fmt::Result {
+                f.write_str("partial text")?;
+                panic!("flv: Display implementation panics on purpose");
+            }
+        }
+        let res = std::panic::catch_unwind(std::panic::AssertUnwindSafe(|| {
+            log.log(
+                &log::Record::builder()
+                    .args(format_args!("{}{}", r.msg, Panicker))
+                    .level(lvl(r.level))
+                    .target(target)
+                    .module_path(r.module.as_deref())
+                    .file(r.file.as_deref())
+                    .line(r.line)
+                    .key_values(&kvs_ref)
+                    .build(),
+            );
+        }));
+        let _ = res;
+        // the panic was provoked and caught here: it is not a finding
+        let _ = crate::runner::take_panics();
+        return;
+    }
     if r.inner.is_empty() {
         log.log(
             &log::Record::builder()
@@ -581,9 +613,18 @@ impl Property for P {
                 let multi = multi && std_out.is_none();
                 let crlf = crlf && std_out.is_none();
                 let allow_inner = !multi && !dup;
-                (Just((fmt, crlf, mode, t0, tick, multi, std_out, utc, flush_between, file_start_ts)), prop::collection::vec(rc_strat(allow_inner), 1..8))
+                let panicking = if std_out.is_none() && !multi { prop::option::weighted(0.15, any::<prop::sample::Index>()).boxed() } else { Just(None).boxed() };
+                (Just((fmt, crlf, mode, t0, tick, multi, std_out, utc, flush_between, file_start_ts)), prop::collection::vec(rc_strat(allow_inner), 1..8), panicking)
             })
-            .prop_map(|((fmt, crlf, mode, t0, tick, multi, std_out, utc, flush_between, file_start_ts), recs)| Case {
+            .prop_map(|((fmt, crlf, mode, t0, tick, multi, std_out, utc, flush_between, file_start_ts), mut recs, panicking)| {
+                if let Some(ix) = panicking {
+                    let i = ix.index(recs.len());
+                    recs[i].panics = true;
+                    recs[i].inner.clear();
+                }
+                (fmt, crlf, mode, t0, tick, multi, std_out, utc, flush_between, file_start_ts, recs)
+            })
+            .prop_map(|(fmt, crlf, mode, t0, tick, multi, std_out, utc, flush_between, file_start_ts, recs)| Case {
                 tz: crate::vtime::tz_name(),
                 fmt,
                 crlf,
@@ -664,6 +705,11 @@ impl Property for P {
             let before = h().time().unwrap();
             log_rec(&*log, r, target);
             let after = h().time().unwrap();
+            if r.panics {
+                // nothing of it is written; the clock may have been read before the panic
+                t += after - before;
+                continue;
+            }
             let text = if r.inner.is_empty() { r.msg.clone() } else { format!("{}<R>", r.msg) };
             // the outer record takes its timestamp first (all formats print it before the
             // message), the inner records read the clock while the message is rendered, but
@@ -683,6 +729,7 @@ impl Property for P {
                         line: Some(line),
                         kv: vec![],
                         inner: vec![],
+                        panics: false,
                     };
                     segs.push(seg_of(&ir, &text, if needs_ts { t + off * step } else { t }));
                 }
@@ -753,6 +800,9 @@ impl Property for P {
         }
         if case.recs.iter().any(|r| r.inner.iter().any(|m| m.starts_with('>'))) {
             out.class("recursive-two-levels");
+        }
+        if case.recs.iter().any(|r| r.panics) {
+            out.class("panicking-display");
         }
         if recursive {
             out.class("recursive");
